@@ -9,7 +9,8 @@ TYPES = {
                   "        pub fn with_beta(&self, b: Beta) -> u16 { b.x as u16 }\n        pub fn gamma(&self) -> Gamma { Gamma::One }\n    }\n",
                # the second impl block carries attributes of its own: they belong to THIS block only, wherever it stands
                2: "    #[diplomat::abi_rename = \"pfx_{0}\"]\n    #[diplomat::attr(*, rename = \"rn_{0}\")]\n"
-                  "    impl Alpha {\n        pub fn extra(&self, w: &mut DiplomatWrite) {}\n        pub fn again<'a>(&'a self) -> &'a Alpha { self }\n    }\n"}),
+                  "    impl Alpha {\n        pub fn extra(&self, w: &mut DiplomatWrite) {}\n        pub fn again<'a>(&'a self) -> &'a Alpha { self }\n"
+                  "        pub fn pick<'a, 'b: 'a, 'c: 'a, 'd: 'a>(&'b self, o: &'c Alpha, p: &'d Alpha) -> &'a Alpha { self }\n    }\n"}),
     "Beta": ("    pub struct Beta {\n        pub x: u8,\n        pub y: u16,\n        pub g: Gamma,\n    }\n",
              {1: "    impl Beta {\n        pub fn sum(self) -> u16 { self.y }\n        pub fn make(x: u8) -> Beta { Beta { x, y: 1, g: Gamma::Two } }\n    }\n"}),
     "Gamma": ("    #[diplomat::attr(supports = namespacing, namespace = \"n2::deep\")]\n    pub enum Gamma {\n        One,\n        Two = 5,\n    }\n",
